@@ -498,12 +498,12 @@ pub fn explore_c13(ctx: &Ctx, name: &str, alpha: &[A13], len: usize, max_live: u
 pub fn c13(ctx: &Ctx) -> Outcome {
     let mut out = Outcome::default();
     use A13::*;
-    let len = ctx.tier.pick(5, 7);
+    let len = ctx.tier.pick(6, 8);
     explore_c13(ctx, "sock:c13-order", &[SynFresh, SynDup, Accept, AcceptCancelLast, Settle, CloseOldest], len, 64, false, &[1], &mut out);
     explore_c13(ctx, "sock:c13-connect", &[Connect, ConnectCancelLast, Accept, AcceptCancelLast, CloseOldest, Settle], len, 64, false, &[1], &mut out);
-    explore_c13(ctx, "sock:c13-backlog", &[SynBurst33, SynFresh, Accept, Settle], ctx.tier.pick(4, 5), 64, false, &[1], &mut out);
+    explore_c13(ctx, "sock:c13-backlog", &[SynBurst33, SynFresh, Accept, Settle], ctx.tier.pick(5, 6), 64, false, &[1], &mut out);
     explore_c13(ctx, "sock:c13-slots", &[ConnectFake, ConnectCancelLast, ConnectCancelFirst, SynAckForLastFake], ctx.tier.pick(8, 9), 64, false, &[1], &mut out);
-    explore_c13(ctx, "sock:c13-limit2", &[SynFresh, Connect, Accept, AcceptCancelLast, CloseOldest, Settle], ctx.tier.pick(5, 6), 2, false, &[1], &mut out);
+    explore_c13(ctx, "sock:c13-limit2", &[SynFresh, Connect, Accept, AcceptCancelLast, CloseOldest, Settle], ctx.tier.pick(6, 7), 2, false, &[1], &mut out);
     let seeds: Vec<u64> = (0..ctx.tier.pick(8u64, 32u64)).collect();
     explore_c13(ctx, "sock:c13-ties", &[SynFreshNow, Accept, AcceptCancelLast, Settle], ctx.tier.pick(6, 7), 64, true, &seeds, &mut out);
     out.rule = "C13: every sequence of socket events up to the stated length (events separated by a drain, or one adjacent pair in the same instant under every select! seed of a set); reference = two FIFO queues (pending requests <= 32, pending acceptors); distinct_nontrivial = executions with distinct timed traces".into();
@@ -713,7 +713,7 @@ pub fn c12(ctx: &Ctx) -> Outcome {
     // event alphabets over 2 and 3 sockets
     let alpha2: Vec<Ev> = vec![Ev::Connect { from: 0, to: 1 }, Ev::Connect { from: 1, to: 0 }, Ev::Accept { sock: 0 }, Ev::Accept { sock: 1 }, Ev::CloseOldest, Ev::Settle];
     let alpha3: Vec<Ev> = vec![Ev::Connect { from: 0, to: 1 }, Ev::Connect { from: 0, to: 2 }, Ev::Connect { from: 2, to: 1 }, Ev::Accept { sock: 1 }, Ev::Accept { sock: 2 }, Ev::Settle];
-    let len = ctx.tier.pick(5usize, 7usize);
+    let len = ctx.tier.pick(6usize, 8usize);
     let mut families: Vec<(String, Vec<SockCfg>, Vec<Ev>, usize)> = vec![];
     for max_live in [1usize, 2, 3, 64] {
         for (da, db) in [(0i32, 0i32), (1, 0), (0, 1), (2, 0), (0, 2)] {
@@ -728,7 +728,7 @@ pub fn c12(ctx: &Ctx) -> Outcome {
     let alpha_cancel: Vec<Ev> = vec![Ev::Connect { from: 0, to: 1 }, Ev::ConnectCancel(0), Ev::ConnectCancel(1), Ev::Accept { sock: 1 }, Ev::Settle];
     families.push(("sock:c12-pair-abandoned-connects".into(), cfg_n(2, 64, &[500, 600]), alpha_cancel, len));
     families.push(("sock:c12-triangle".into(), cfg_n(3, 64, &[500, 500, 501]), alpha3.clone(), len));
-    families.push(("sock:c12-triangle-live2".into(), cfg_n(3, 2, &[500, 502, 501]), alpha3.clone(), ctx.tier.pick(4, 5)));
+    families.push(("sock:c12-triangle-live2".into(), cfg_n(3, 2, &[500, 502, 501]), alpha3.clone(), ctx.tier.pick(5, 6)));
     for (name, cfgs, alpha, len) in families {
         // all sequences; connects/accepts back to back (same instant) and separated variants
         let mut seqs: Vec<Vec<usize>> = vec![vec![]];
